@@ -346,6 +346,37 @@ def term_is_u64(v):
     except Exception: return False
 
 
+def flat_steps(ctx, crate, clause="views-share-decoders"):
+    """N: the two flat iterators step through the deepest-level cells of an entry one by one: while the
+    current number is below the last one of the entry (`<`, the bound of `next_cell`), the next value is
+    the current one plus 1 (same raw value, maximal depth, same flag for the cell version); otherwise
+    the next entry is decoded."""
+    names = [p_ for p_ in crate.bodies if "BMOCFlatIter" in p_ and p_.endswith("::next")]
+    ncell = {p_ for p_ in crate.bodies if p_.endswith("::next_cell")}
+    n = 0
+    for fn in sorted(names):
+        b = ctx.anchor(crate, fn, clause)
+        if b is None: continue
+        e = Engine(crate, opaque=ncell); e.run(fn); ctx.functions |= e.visited_fns
+        reps = [ev for ev in e.events.values() if ev.callee and strip_generics(ev.callee).endswith("Option::replace")]
+        ok = False; why = "expected one `curr_val.replace(..)`, found %d" % len(reps)
+        if len(reps) == 1:
+            v = reps[0].args[1]
+            cur = None
+            if v[0] == 'op' and v[1] == 'add' and v[4] == C('u64', 1): cur = v[3]; extra = True
+            elif v[0] == 'agg' and len(v[3]) == 4 and v[3][2][0] == 'op' and v[3][2][1] == 'add' and v[3][2][4] == C('u64', 1):
+                cur = v[3][2][3]
+                base = cur[1] if cur[0] == 'fld' else None
+                extra = base is not None and v[3][0] == ('fld', base, 0) and v[3][3] == ('fld', base, 3) and v[3][1][0] == 'fld' and v[3][1][1] == ('deref', ('p', 'self'))
+            else: extra = False
+            lt = [f for f in reps[0].facts if f[0] == 'b' and f[2] and f[1][0] == 'op' and f[1][1] == 'lt' and f[1][3] == cur]
+            ok = cur is not None and extra and len(lt) == 1
+            why = "next value = current + 1 under `current < last of the entry`" if ok else "the step is %s under %s" % (show(v)[:80], [show(f[1])[:40] for f in reps[0].facts if f[0] == 'b'][:3])
+        n += 1
+        ctx.report(clause, "%s::next:steps-by-one-below-the-last" % ("BMOCFlatIterCell" if "FlatIterCell" in fn else "BMOCFlatIter"), ok, why, at=b.span, kind="N")
+    return n
+
+
 def view_arithmetic(ctx, crate):
     """D (per delta 0..=29, hash symbolic): to_range(h, Δ) = h*4^Δ .. (h+1)*4^Δ; the number of
     deepest-level cells counted per entry by deep_size is 4^Δ; the flat iterators step by +1 up to
@@ -399,6 +430,7 @@ def view_arithmetic(ctx, crate):
 def run(ctx):
     crate = ctx.crate("rel")
     view_arithmetic(ctx, crate)
+    flat_steps(ctx, crate)
     if ctx.tier == "thorough":
         pairs = [(d, m) for m in range(30) for d in range(m + 1)]
     else:
